@@ -59,3 +59,54 @@ End TieZocf.
 Corollary tie_z_part2ocf_kz n w : In w (worlds n) -> forall Pc, Pc <> [] ->
   py_SystemZPreOCF_z_part2ocf n (S (length Pc)) Pc w = Return (Z.of_nat (kz world (acP Pc) w)).
 Proof. intros Hw Pc Hne. rewrite <- (zrank_of_is_kz (acP Pc) w). exact (tie_z_part2ocf n w Hw Pc Hne). Qed.
+
+(* ---- SystemZPreOCF.rank_world: the lazily filled table ---- *)
+Lemma wfind_in {V} (d:wdict V) w : In w (map fst d) -> exists v, wdict_find d w = Some v /\ In (w, v) d.
+Proof. induction d as [|[w' v'] d IH]; intros Hin; [destruct Hin|]. cbn [wdict_find]. destruct (beq w' w) eqn:E.
+  - apply beq_eq in E. subst. exists v'. split; [reflexivity|left; reflexivity].
+  - destruct Hin as [Hin|Hin]; [cbn in Hin; subst; rewrite (proj2 (beq_eq w w) eq_refl) in E; discriminate|].
+    destruct (IH Hin) as [v [Hf Hi]]. exists v. split; [exact Hf|right; exact Hi]. Qed.
+Lemma wset_find_same {V} (d:wdict V) w v : wdict_find (wdict_set d w v) w = Some v.
+Proof. induction d as [|[w' v'] d IH]; cbn [wdict_set wdict_find]; [rewrite (proj2 (beq_eq w w) eq_refl); reflexivity|].
+  destruct (beq w' w) eqn:E; cbn [wdict_find]; [rewrite (proj2 (beq_eq w w) eq_refl); reflexivity|rewrite E; exact IH]. Qed.
+Lemma wset_find_other {V} (d:wdict V) w v w2 : w2 <> w -> wdict_find (wdict_set d w v) w2 = wdict_find d w2.
+Proof. intros Hne. induction d as [|[w' v'] d IH]; cbn [wdict_set wdict_find].
+  - destruct (beq w w2) eqn:E; [apply beq_eq in E; congruence|reflexivity].
+  - destruct (beq w' w) eqn:E; cbn [wdict_find].
+    + apply beq_eq in E. subst w'. destruct (beq w w2) eqn:E2; [apply beq_eq in E2; congruence|reflexivity].
+    + destruct (beq w' w2); [reflexivity|exact IH]. Qed.
+Lemma wset_keys {V} (d:wdict V) w v : In w (map fst d) -> map fst (wdict_set d w v) = map fst d.
+Proof. induction d as [|[w' v'] d IH]; intros Hin; [destruct Hin|]. cbn [wdict_set]. destruct (beq w' w) eqn:E.
+  - apply beq_eq in E. subst. reflexivity.
+  - cbn [map fst]. f_equal. apply IH. destruct Hin as [Hin|Hin]; [cbn in Hin; subst; rewrite (proj2 (beq_eq w w) eq_refl) in E; discriminate|exact Hin]. Qed.
+Lemma wset_in {V} (d:wdict V) w v x : In x (wdict_set d w v) -> In x d \/ x = (w, v).
+Proof. induction d as [|[w' v'] d IH]; cbn [wdict_set]; [intros [<-|[]]; right; reflexivity|].
+  destruct (beq w' w); intros [<-|Hin]; [right; reflexivity|left; right; exact Hin|left; left; reflexivity|].
+  destruct (IH Hin) as [H|H]; [left; right; exact H|right; exact H]. Qed.
+
+Definition ztable_ok (n:nat) (Pc:list (list cond)) (rk:wdict (option Z)) : Prop :=
+  forall w v, In (w, v) rk -> In w (worlds n) /\ (v = None \/ v = Some (Z.of_nat (kz world (acP Pc) w))).
+
+(* whatever part of the table is filled in, and whether or not recomputation is forced: the answer is the Z-rank, the table keeps
+   its worlds, stays correct, holds the rank of the asked world afterwards and is unchanged elsewhere *)
+Theorem tie_zocf_rank_world n Pc (rk:wdict (option Z)) w force : Pc <> [] -> ztable_ok n Pc rk -> In w (map fst rk) ->
+  exists rk', py_SystemZPreOCF_rank_world n (S (length Pc)) Pc w force rk = Return (Z.of_nat (kz world (acP Pc) w), rk') /\
+    map fst rk' = map fst rk /\ ztable_ok n Pc rk' /\ wdict_find rk' w = Some (Some (Z.of_nat (kz world (acP Pc) w))) /\
+    (forall w2, w2 <> w -> wdict_find rk' w2 = wdict_find rk w2).
+Proof. intros Hne Hok Hin. destruct (wfind_in rk w Hin) as [v [Hf Hi]]. destruct (Hok w v Hi) as [Hw Hv].
+  unfold py_SystemZPreOCF_rank_world. unfold wdict_get at 1. rewrite Hf.
+  assert (Hcompute: exists rk', cbind (call (py_SystemZPreOCF_z_part2ocf n (S (length Pc)) Pc w) (fun r3 => Next (wdict_set rk w (Some r3))))
+                      (fun v_at__ranks : wdict (option Z) => cbind (wdict_get v_at__ranks w) (fun t4 => cbind (py_assert (negb (is_none t4))) (fun _ => cbind (py_unopt t4) (fun t5 => Return (t5, v_at__ranks)))))
+                    = @Return (Z * wdict (option Z)) unit unit (Z.of_nat (kz world (acP Pc) w), rk') /\
+                    map fst rk' = map fst rk /\ ztable_ok n Pc rk' /\ wdict_find rk' w = Some (Some (Z.of_nat (kz world (acP Pc) w))) /\
+                    (forall w2, w2 <> w -> wdict_find rk' w2 = wdict_find rk w2)).
+  { exists (wdict_set rk w (Some (Z.of_nat (kz world (acP Pc) w)))). rewrite (tie_z_part2ocf_kz n w Hw Pc Hne). cbn [call cbind].
+    unfold wdict_get. rewrite wset_find_same. cbn [cbind is_none negb py_assert py_unopt]. split; [reflexivity|].
+    split; [apply wset_keys; exact Hin|]. split; [|split; [first [reflexivity|apply wset_find_same]|intros w2 H2; apply wset_find_other; exact H2]].
+    intros w' v' Hin'. apply wset_in in Hin' as [Hin'|E]; [apply Hok; exact Hin'|]. inversion E; subst. split; [exact Hw|right; reflexivity]. }
+  destruct force; cbn [cbind].
+  - exact Hcompute.
+  - destruct Hv as [->| ->]; cbn [is_none cbind].
+    + exact Hcompute.
+    + exists rk. unfold wdict_get. rewrite Hf. cbn [cbind is_none negb py_assert py_unopt]. split; [reflexivity|].
+      split; [reflexivity|]. split; [exact Hok|]. split; [first [reflexivity|exact Hf]|reflexivity]. Qed.
